@@ -165,7 +165,7 @@ Definition typedef_okb (n : string) (t : typedef_t) : bool :=
   match td_alias t with AVar _ _ => is_ident (td_target t) | _ => true end.
 
 Definition enum_okb (e : enum_t) : bool :=
-  forallb (fun p => match snd p with VNum x => Z.leb 0 x | VStr _ => false end) (en_variants e) &&
+  forallb (fun p => match snd p with VNum x => (Z.leb 0 x && Z.ltb x 2147483648)%bool | VStr _ => false end) (en_variants e) &&
   nodupv (map snd (en_variants e)).
 
 Definition type_okb (A : ast) (k : string) (t : ast_type) : bool :=
@@ -223,7 +223,8 @@ Proof.
     apply Bool.andb_true_iff in Hget as [_ Ht]. unfold enum_okb in Ht.
     apply Bool.andb_true_iff in Ht as [H1 H2]. split; [|now apply nodupv_NoDup].
     intros p Hp. pose proof (proj1 (forallb_forall _ _) H1 p Hp) as X.
-    cbv beta in X. destruct (snd p); [|discriminate]. exists z. split; [reflexivity|now apply Z.leb_le].
+    cbv beta in X. destruct (snd p); [|discriminate]. exists z. split; [reflexivity|].
+    apply Bool.andb_true_iff in X as [X1 X2]. apply Z.leb_le in X1. apply Z.ltb_lt in X2. lia.
   - (* union arms positions *)
     intros n u G. specialize (Hget n _ G). unfold type_okb in Hget.
     apply Bool.andb_true_iff in Hget as [_ Ht]. unfold union_allb in Ht.
